@@ -107,6 +107,8 @@ fn c10_strategy() -> impl Strategy<Value = Scenario> {
         initial_succeeded: vec![],
         cfg_later: None,
         notif_stall: false,
+        pay_opts: None,
+        fail_store: None,
             };
             // fund the HTLC for whatever amount the reference classifier expects
             if let Class::Trampoline { amount, .. } = scn.classify(0) {
